@@ -442,4 +442,27 @@ theorem blc_restart_reaches_active {c : Cfg} (hk : c.kind = .BLC) {store : Optio
   rw [hse]
   exact ⟨i4, hc4, ha4 rfl, hg4, fun e he => by rw [hr4, hr3, hr2]; exact hreg1 e he⟩
 
+/-! ### waitBeforeJoining -/
+
+theorem waitAttempts_outage (reads : Nat → Read) : ∀ (k budget start : Nat), k < budget →
+    (∀ j, j < k → reads (start + j) ≠ .ok) → reads (start + k) = .ok → waitAttempts budget reads start = k + 1 := by
+  intro k
+  induction k with
+  | zero =>
+    intro budget start hb _ hok
+    cases budget with
+    | zero => omega
+    | succ b => have hok' : reads start = .ok := by simpa using hok
+                simp [waitAttempts, hok']
+  | succ k ih =>
+    intro budget start hb hfail hok
+    cases budget with
+    | zero => omega
+    | succ b =>
+      have h0 : reads start ≠ .ok := by simpa using hfail 0 (by omega)
+      simp only [waitAttempts, h0, if_false]
+      have := ih b (start + 1) (by omega) (fun j hj => by have := hfail (j + 1) (by omega); simpa [Nat.add_assoc, Nat.add_comm 1 j] using this)
+        (by simpa [Nat.add_assoc, Nat.add_comm 1 k] using hok)
+      omega
+
 end PfC09
